@@ -240,6 +240,10 @@ func (w *World) isFreshError(v ssa.Value) bool {
 		if g, ok := u.X.(*ssa.Global); ok && g.Pkg != w.Main && (strings.HasPrefix(g.Name(), "Err") || g.Name() == "EOF") {
 			return true
 		}
+		// a sentinel error variable of the package itself: every store to it, anywhere, is a newly built error
+		if g, ok := u.X.(*ssa.Global); ok && g.Pkg == w.Main {
+			return w.sentinelError(g)
+		}
 	}
 	c, _ := callOfResult(v)
 	if c == nil {
@@ -469,4 +473,63 @@ func (w *World) isMainType(t types.Type) bool {
 	}
 	n, ok := t.(*types.Named)
 	return ok && n.Obj().Pkg() != nil && n.Obj().Pkg() == w.Main.Pkg
+}
+
+// sentinelError: package-level variable g of type error is assigned only newly built errors (at least once, in the
+// package initialiser or elsewhere) and its address is not handed out: a load of it is non-nil.
+func (w *World) sentinelError(g *ssa.Global) bool {
+	if w.sentinels == nil {
+		w.sentinels = map[*ssa.Global]bool{}
+		stores := map[*ssa.Global]int{}
+		bad := map[*ssa.Global]bool{}
+		for fn := range ssautilAll(w) {
+			eachInstr(fn, func(in ssa.Instruction) {
+				var rands []*ssa.Value
+				for _, r := range in.Operands(rands) {
+					gg, ok := (*r).(*ssa.Global)
+					if !ok || gg.Pkg != w.Main {
+						continue
+					}
+					switch x := in.(type) {
+					case *ssa.Store:
+						if x.Addr == ssa.Value(gg) {
+							c, _ := callOfResult(x.Val)
+							if c != nil && (w.calleeName(c) == "errors.New" || w.calleeName(c) == "fmt.Errorf") {
+								stores[gg]++
+							} else {
+								bad[gg] = true
+							}
+						} else {
+							bad[gg] = true
+						}
+					case *ssa.UnOp:
+						if x.Op != token.MUL {
+							bad[gg] = true
+						}
+					case *ssa.DebugRef:
+					default:
+						bad[gg] = true
+					}
+				}
+			})
+		}
+		for gg, n := range stores {
+			if n > 0 && !bad[gg] {
+				w.sentinels[gg] = true
+			}
+		}
+	}
+	return w.sentinels[g]
+}
+
+// ssautilAll: every function of the analysed package with a body, including its initialiser and closures.
+func ssautilAll(w *World) map[*ssa.Function]bool {
+	out := map[*ssa.Function]bool{}
+	for _, fn := range w.All {
+		out[fn] = true
+	}
+	if init := w.Main.Func("init"); init != nil {
+		out[init] = true
+	}
+	return out
 }
